@@ -43,7 +43,7 @@ type backend interface {
 type trackBackend struct{ w *fwd.World }
 
 func newTrackBackend() backend {
-	w := fwd.New(fwd.VP8, 0)
+	w := fwd.New(fwd.VP8, 1)
 	w.Down.SetLayer(rtpconn.VerifLayer{Tid: 0, WantedTid: 0, MaxTid: 2})
 	return &trackBackend{w}
 }
